@@ -611,3 +611,6 @@ Definition ktype_of (url : bytes) (s : schema) : option ktype :=
   | Some pk => Some (mkKtype s pk (norm_kind_of url))
   | None => None
   end.
+
+(* a named URL for examples *)
+Definition aesgcm_url : bytes := Eval vm_compute in tink_url "AesGcmKey".
